@@ -1,10 +1,10 @@
 SPECIFICATION Spec
 CONSTANTS
   Anys = {1, 2, 3}
-  Types = {"Small", "Big", "STM"}
+  Types = {"Small", "Big", "STM", "NC", "Int", "Str", "CStr", "Fn", "Sp", "Ov", "Nest"}
   Vals = {1, 2, 3}
   Fuses = {0, 0, 1, 2}
-  InPlaceTypes = {"Small"}
-  NothrowMove = {"Small", "Big"}
+  InPlaceTypes = {"Small", "NC", "Int", "CStr", "Fn", "Sp"}
+  NothrowMove = {"Small", "Big", "NC", "Int", "Str", "CStr", "Fn", "Sp", "Ov", "Nest"}
   SelfSwapGuard = TRUE
   EmitMode = "none"
